@@ -89,7 +89,15 @@ def rule_adj(chk):
            "token adjacency is inspected outside the operator / template-argument parsers: %s" % rd, "parser / condition_parser", sample={"readers": rd})
     chk.floor("C14.floor/adjacency-readers", len(readers), 4, "functions matching on FollowedBy")
     mp = f.fn("parse", "rssl_preprocess", self_ty="Macro")
-    if chk.anchor("C14.anchor/Macro::parse", mp, "Macro::parse"):
+    import c12
+    mp2, tab = c12.macro_parse_model(f) if mp else (None, {})
+    lines = ("F(x) x", "F (x) x", "F/**/(x) x", "  F(x) x")
+    if mp2 and all(isinstance(tab.get(l), tuple) and tab[l] and tab[l][0] in (True, False) for l in lines):
+        ok = [tab[l][0] for l in lines] == [True, False, False, True]
+        chk.ob("C14.adj/macro-paren-untrimmed", ok, "a function-like macro needs '(' directly after its name (space or comment in between: object-like); leading layout is ignored" if ok else
+               "Macro::parse: function-like? `F(x)` %s, `F (x)` %s, `F/**/(x)` %s, `  F(x)` %s - must be True, False, False, True: layout between the macro name and '(' is the one place where it is significant"
+               % tuple(tab[l][0] for l in lines), where(mp))
+    elif chk.anchor("C14.anchor/Macro::parse", mp, "Macro::parse"):
         # after the name is split off, the '(' test is on `rest` of split_first, with no trim call in between
         ok = False
         for s in F.walk(mp["thir"]):
